@@ -228,10 +228,19 @@ func funcName(f *ssa.Function) string {
 	if f == nil {
 		return "?"
 	}
-	s := f.String()
-	s = strings.ReplaceAll(s, modPath+"/", "")
-	s = strings.ReplaceAll(s, modPath, "biogo")
-	return s
+	p := f.Pkg
+	for x := f; p == nil && x != nil; x = x.Parent() {
+		p = x.Pkg
+	}
+	if p == nil {
+		if o := f.Origin(); o != nil {
+			p = o.Pkg
+		}
+	}
+	if p == nil {
+		return f.String()
+	}
+	return p.Pkg.Name() + "." + f.RelString(p.Pkg)
 }
 
 func shortPkg(path string) string {
